@@ -245,6 +245,21 @@ Theorem C17_resume_equals_uninterrupted : forall (c : @config R) (p : @params R)
 Proof. exact resume_after_any_history. Qed.
 Print Assumptions C17_resume_equals_uninterrupted.
 
+(* FULL STATEMENT for a state saved at ANY step (false of the code when the variable has timeStepFactor f > 1 and the state is saved
+   between two slow steps): the resumed run reports at the next slow step what the uninterrupted run reports.
+   The saved extended_x/extended_v are the values reported at the last slow step t while the object already holds x_(t+f): the resumed
+   run is one slow step behind (witness: f = 2, saved after absolute step 1; replayed on the C++ by the check: known finding, together
+   with the spurious wake-up of the variable on the first step of the new object). *)
+Theorem C17_resume_between_slow_steps_refuted :
+  exists (c : @config R) (p : @params R) (i1 i2 : @input R),
+    free_cfg c /\ c_tsf c = 2%Z /\ consecutive (c_tsf c) 0 [i1; i2] /\
+    let s1 := step Rops c p (init_state Rops) i1 in
+    let s2 := step Rops c p s1 i2 in
+    let r2 := step Rops c p (restart_state Rops (s_x_rep s1) (s_v_rep s1)) (shift_input 1 i2) in
+    s_x_rep s2 = 1 /\ s_x_rep r2 = 0.
+Proof. exact resume_sleeping_refuted. Qed.
+Print Assumptions C17_resume_between_slow_steps_refuted.
+
 (* ---- time origin of the reported total force -------------------------------------------------------------------- *)
 (* engines with lagged total forces: what is stored at step t, and read by the biases at step t+1, is the force that acted on the
    coordinate at step t (without the bias part under subtractAppliedForce) *)
